@@ -323,11 +323,15 @@ def plan_C10(tier, seed):
     jobs += res_jobs("c10", [("R2", 1)])
     jobs += eval_jobs("c10", [("G3", 1)], "d7") + eval_jobs("c10", [("F5", 1), ("DUP", 1)], "2020")
     rep = rep_job("c10", "RV", 1, [], workers=6)
+    # For / ForType on every type universe of MC_Infer (incl. recursive and unsupported types, all ForOptions)
+    inf = [tlc("c10_infer_%s" % f, "MC_Infer", {"Family": q(f), "K": 1 if q_ else 2, "CheckKnown": "FALSE", "LegacyNull": "FALSE"},
+               ["Emit"], workers=4) for f in ("T", "S", "X", "O")]
     return dict(
-        tlc=jobs + [rep], parallel=4,
+        tlc=jobs + [rep] + inf, parallel=4,
         replay=[dict(name="c10_total", family="total", inputs=[j["name"] for j in jobs[:5]]),
                 dict(name="c10_resolver", family="eval", inputs=[j["name"] for j in jobs[5:]]),
-                dict(name="c10_reps", family="repval", inputs=[rep["name"]])],
+                dict(name="c10_reps", family="repval", inputs=[rep["name"]]),
+                dict(name="c10_infer", family="infer", inputs=[j["name"] for j in inf], codegen=True, kinds=["panic", "hang"])],
         rule="every call runs under recover() and a 30 s deadline in the replay process (a fatal error is attributed to its case "
              "by a second run with a progress file); TK: all JSON token sequences of length <= 4 (thorough 5) over 11 tokens to "
              "Unmarshal, ill-formed ones (TLA+ recogniser of the JSON grammar) must be rejected, accepted ones are resolved, "
@@ -336,7 +340,9 @@ def plan_C10(tier, seed):
              "children, cycles and nil children: Resolve succeeds iff the graph is a tree; BU: malformed URIs, fragments in $id, "
              "bad regexps, conflicting union fields, bad BaseURI; LD: Loader misbehaviours (error, nil, wrong document, the root "
              "itself, one object for two URIs, self loops, mutual references, chains, broken documents); plus the resolver's "
-             "fault universes (R2) and represented instances (RV). Non-trivial = every malformed case; distinct by case text",
+             "fault universes (R2) and represented instances (RV); For/ForType (twice, then Resolve) on every type of the MC_Infer "
+             "families T, S, X and O (unsupported kinds plain and nested, with and without IgnoreInvalidTypes, described fields, "
+             "self-recursive types through pointers/slices/maps/nested structs, TypeSchemas overrides). Non-trivial = every malformed case; distinct by case text",
         exhaustive=True, assumptions=["TLC", "Go runtime recover() / deadline as the observation of panics and hangs"])
 
 
